@@ -69,6 +69,25 @@ pub struct Op {
     pub m: i64, // struct fn family
 }
 
+/// One round of a parallel job: `pre` runs on the main handle, then every entry of `threads` runs on
+/// its own clone concurrently; `writer` runs on the main handle *while* the readers are running
+/// (it blocks until they have dropped their clones); `cancels` are local cancellations.
+#[derive(Clone, Debug, Default, Serialize, Deserialize)]
+pub struct Round {
+    #[serde(default)]
+    pub pre: Vec<Op>,
+    #[serde(default)]
+    pub threads: Vec<Vec<Op>>,
+    #[serde(default)]
+    pub writer: Vec<Op>,
+    /// (thread index 1-based, number of trace lines of this round after which to cancel)
+    #[serde(default)]
+    pub cancels: Vec<[i64; 2]>,
+    /// number of trace lines of this round after which the writer starts
+    #[serde(default)]
+    pub writer_after: i64,
+}
+
 #[derive(Clone, Debug, Serialize, Deserialize)]
 pub struct Job {
     pub id: i64,
@@ -80,4 +99,9 @@ pub struct Job {
     pub seed: i64,
     #[serde(default)]
     pub mode: String,
+    #[serde(default)]
+    pub rounds: Vec<Round>,
+    /// per-mille probability of a yield / short sleep at harness events (schedule jitter)
+    #[serde(default)]
+    pub jitter: i64,
 }
